@@ -1,4 +1,5 @@
 import SoxrModel.Cr.Model
+import SoxrModel.Cr.Wf
 /-! Line-protocol driver for the constant-rate count model (`soxrmodel cr < ops`).  One op per line in, one canonical
     line out; the harness diffs these lines with what the real code printed. -/
 namespace Soxr.Cr.Driver
@@ -94,6 +95,13 @@ def step (d : DSt) (line : String) : DSt × Option String :=
   | ["cr.clear"] =>
     -- soxr_clear: everything but the configuration and the input function (with its max_ilen) is reset
     ({ d with api := { eng := { stages := d.plan }, hasFn := d.api.hasFn, maxIlen := d.api.maxIlen } }, some "ok clear")
+  | ["cr.wf"] =>
+    -- `PipeWF` exactly as the theorems state it (same definition, decided here)
+    if decide (PipeWF d.api.eng.stages) then (d, some "WF 1")
+    else
+      let bad := (d.api.eng.stages.reverse.zipIdx.filter fun (x, _) => !decide x.WF).map fun (x, i) =>
+        s!"{i}:{repr x.cfg.kind}"
+      (d, some s!"WF 0 failing-stages={bad}")
   | ["cr.delay"] => (d, some s!"DELAY {delayBits d}")
   | "cr.proc" :: hasIn :: flushReq :: useIdone :: ilen0 :: olen :: script =>
     match d.api.process (num d) d.fuel (hasIn == "1") (flushReq == "1") (useIdone == "1")
